@@ -18,6 +18,7 @@ RULE = ('complete enumeration: every index tuple in {0..4}^3 and {0..4}^4; every
 ASSUMPTIONS = ['scipy.special is the ground truth for function values', 'central differences (Richardson, 2 steps) '
                'approximate derivatives to 1e-7 relative on the chosen grids']
 EXHAUSTIVE = True
+REPEAT = 2      # every case is evaluated twice in the same process: the second verdict must equal the first (call-history oracle)
 CHUNK = 1
 
 
